@@ -309,6 +309,13 @@ def cases(tier, rng):
                 for alpha in alphas:
                     rows = _rand_rows(rng, len(alpha), lens)
                     yield from _ops_for(rng, alpha, rows, w, big)
+    # 1b. exhaustive CONTENTS over a two-letter alphabet: every list of <= 2 rows of length <= 3, every w <= 3
+    allrows = [list(x) for l in range(4) for x in itertools.product(range(2), repeat=l)]
+    pairs = [[a] for a in allrows] + [[a, b] for a in allrows for b in allrows]
+    for rows in (pairs if big else rng.sample(pairs, 40)):
+        for w in (1, 2, 3):
+            if sum(len(r) for r in rows) >= w:
+                yield from _ops_for(rng, "AB", rows, w, big)
     # 2. flat (1-D) inputs
     for L in range(1, 7):
         for w in range(1, L + 1):
@@ -339,7 +346,7 @@ def cases(tier, rng):
                 if k <= 10:
                     yield {"op": "pwm", "alpha": alpha, "rows": rows, "matrix": _matrix(rng, n, k)}
     # 5. random ragged
-    for _ in range(6000 if big else 500):
+    for _ in range(20000 if big else 500):
         alpha = rng.choice(names)
         n = len(alpha)
         w = rng.choice([1, 1, 2, 2, 3, 4, 5, 7, 11, 16, 31])
@@ -372,13 +379,33 @@ def nontrivial(c):
     return w == 1 or len(c["rows"]) >= 2 or any(len(r) in (0, w - 1, w, w + 1) for r in c["rows"])
 
 
+def _wrap64(x):
+    x %= 1 << 64
+    return x - (1 << 64) if x >= 1 << 63 else x
+
+
+def _int64_expectation(c):
+    """what a row-local implementation computing in wrapping int64 returns (codes only)"""
+    n, op = len(c["alpha"]), c["op"]
+    if op == "kenc":
+        return [_wrap64(_code(n, km)) for km in c["kmers"]]
+    k = c["k"]
+    if op == "kmers":
+        return [[_wrap64(_code(n, x)) for x in _wins(r, k)] for r in c["rows"]]
+    if op == "minimizers":
+        return [[min(_wrap64(_code(n, y)) for y in _wins(x, k)) for x in _wins(r, c["w"])] for r in c["rows"]]
+    return None
+
+
 def finding_key(c, got, exp):
+    """names the failing input class"""
     op = c["op"]
     n = len(c["alpha"])
     w = _w(c)
     err = isinstance(got, dict) and "err" in got
-    if op in ("kmers", "minimizers", "count", "kenc") and n ** c["k"] > 2 ** 63 and not err:
-        return f"{op}:int64-overflow(|A|^k>2^63)"
+    if op in ("kmers", "minimizers", "kenc") and n ** c["k"] > 2 ** 63 and not err:
+        if got.get("codes" if op == "kenc" else "rows") == _int64_expectation(c):
+            return f"{op}:int64-overflow(|A|^k>2^63)"     # row-local, but the code itself wrapped
     if w == 1 or (op == "minimizers" and c["k"] == 1):
         return f"{op}:window-1"
     return f"{op}:wrong-result" + (":raises" if err else "")
